@@ -722,8 +722,10 @@ Inductive dstep :=
 | DCountall                        (* BioBasket(all objects).countall() *)
 | DSlice (k : nat) (gap : option str) (ix : index)   (* obj_k[ix] / obj_k.sl(gap=gap)[ix]: the NEW object (made by the
                                       constructor, so upper-cased) is appended to the store *)
-| DSliceIn (k : nat) (gap : option str) (ix : index).   (* obj_k.sl(inplace=True, gap=gap)[ix]: new object appended AND
+| DSliceIn (k : nat) (gap : option str) (ix : index)    (* obj_k.sl(inplace=True, gap=gap)[ix]: new object appended AND
                                       obj_k.data = subseq.data *)
+| DAdd (k : nat) (t : str) | DRadd (k : nat) (t : str). (* obj_k + t, t + obj_k: the NEW object (constructor: upper-cased as a
+                                      whole, lower case of obj_k included) is appended *)
 
 (* for seq in basket: edit(seq) -- earlier sequences stay edited when a later one raises *)
 Fixpoint edit_all (e : edit) (b : store) : store * option exc :=
@@ -771,6 +773,14 @@ Definition dstep_run (st : store) (h : dstep) : store * val :=
                                      | Err x => (st, show_exc x)
                                      end
                          end
+  | DAdd k t => match nth_error st k with
+                | Some s => (st ++ [seq_add s t], show_seq (seq_add s t))
+                | None => (st, show_exc IndexError)
+                end
+  | DRadd k t => match nth_error st k with
+                 | Some s => (st ++ [seq_radd s t], show_seq (seq_radd s t))
+                 | None => (st, show_exc IndexError)
+                 end
   end.
 Fixpoint store_run (st : store) (hs : list dstep) : list val :=
   match hs with
@@ -807,11 +817,13 @@ Definition strs_step (ds : list str) (h : dstep) : list str :=
                                      end
                          | None => ds
                          end
+  | DAdd k t => match nth_error ds k with Some d => ds ++ [py_upper (d ++ t)] | None => ds end
+  | DRadd k t => match nth_error ds k with Some d => ds ++ [py_upper (t ++ d)] | None => ds end
   | _ => ds
   end.
 Definition ids_step (ids : list str) (h : dstep) : list str :=
   match h with
-  | DDup k => match nth_error ids k with Some i => ids ++ [i] | None => ids end
+  | DDup k | DAdd k _ | DRadd k _ => match nth_error ids k with Some i => ids ++ [i] | None => ids end
   | _ => ids
   end.
 (* slices carry the id of their source (the meta object is shared); whether a slice step succeeds depends on the residues *)
@@ -857,6 +869,7 @@ Definition dstep_wf (h : dstep) : bool :=
   | DAllEdit e => edit_wf e && edit_basket_ok e
   | DQuery _ q => query_wf q
   | DSlice _ gap _ | DSliceIn _ gap _ => opt_okstr gap
+  | DAdd _ t | DRadd _ t => all_ascii t
   | _ => true
   end.
 
